@@ -798,6 +798,29 @@ NextPin:
 			return fmt.Errorf("Error closing rowsPoints: %v", err)
 		}
 
+		// look for existing child edges, their hashes are part of this edge's hash
+		rowsChildren, err := tx.Query("SELECT hash FROM edges WHERE up=?", nodeID)
+		if err != nil {
+			rollback()
+			return err
+		}
+		defer rowsChildren.Close()
+
+		for rowsChildren.Next() {
+			var childHash uint32
+			err := rowsChildren.Scan(&childHash)
+			if err != nil {
+				rollback()
+				return err
+			}
+			hashUpdate ^= childHash
+		}
+
+		if err := rowsChildren.Close(); err != nil {
+			rollback()
+			return fmt.Errorf("Error closing rowsChildren: %v", err)
+		}
+
 		_, err = tx.Exec(`INSERT INTO edges(id, up, down, hash, type) VALUES (?, ?, ?, ?, ?)`,
 			edge.ID, edge.Up, edge.Down, 0, edge.Type)
 
@@ -830,7 +853,9 @@ NextPin:
 		}
 	}
 
-	err = sdb.updateHash(tx, nodeID, hashUpdate)
+	// edge points only belong to this edge, so only this edge and the edges
+	// above its parent change
+	err = sdb.updateHashEdge(tx, edge.ID, parentID, hashUpdate)
 	if err != nil {
 		rollback()
 		return fmt.Errorf("Error updating upstream hash: %v", err)
@@ -897,7 +922,35 @@ func (sdb *DbSqlite) updateHash(tx *sql.Tx, id string, hashUpdate uint32) error 
 		return err
 	}
 
-	// write update hash values back to edges
+	return sdb.writeHashes(tx, cache)
+}
+
+// updateHashEdge applies a change in the content of one edge (its edge points,
+// or for a new edge everything below it) to that edge and all edges upstream
+// of its parent.
+func (sdb *DbSqlite) updateHashEdge(tx *sql.Tx, edgeID, up string, hashUpdate uint32) error {
+	cache := make(map[string]uint32)
+
+	var hash uint32
+	err := tx.QueryRow("SELECT hash FROM edges WHERE id=?", edgeID).Scan(&hash)
+	if err != nil {
+		return fmt.Errorf("Error getting edge hash: %v", err)
+	}
+
+	cache[edgeID] = hash ^ hashUpdate
+
+	if up != "none" {
+		err := sdb.updateHashHelper(tx, up, hashUpdate, cache)
+		if err != nil {
+			return err
+		}
+	}
+
+	return sdb.writeHashes(tx, cache)
+}
+
+// writeHashes writes hash values (keyed by edge ID) back to edges
+func (sdb *DbSqlite) writeHashes(tx *sql.Tx, cache map[string]uint32) error {
 	stmt, err := tx.Prepare(`UPDATE edges SET hash = ? WHERE id = ?`)
 
 	if err != nil {
